@@ -32,14 +32,27 @@ structure Grp where
   id : Nat
   deriving DecidableEq, Repr, Inhabited
 
+/-- An inner observable handed to a flattening operator; `id` names it in the output. -/
+structure Inner where
+  id : Nat
+  deriving DecidableEq, Repr, Inhabited
+
+/-- A stored closure (`Box<dyn FnOnce()>`) that subscribes inner observable `id` when it is run. -/
+structure Lazy where
+  id : Nat
+  deriving DecidableEq, Repr, Inhabited
+
 /-- What an observer / subscription does to the outside, in order: a call on THE downstream observer, a call on
     the k-th of several downstream observers (subject subscribers, group subjects), a run of a user callback
-    without result (finalizer), `unsubscribe()` of a nested subscription. -/
+    without result (finalizer), `unsubscribe()` of a nested subscription, the subscription of an inner observable,
+    the run of a stored subscribing closure. -/
 inductive Ev where
   | n (x : Notif)
   | to (k : Nat) (x : Notif)
   | call (k : Nat)
   | unsub (k : Nat)
+  | start (k : Nat)
+  | lazy (k : Nat)
   deriving DecidableEq, Repr, Inhabited
 
 /-- The effects of one method call, in order. -/
@@ -70,6 +83,11 @@ def emitComplete (_ : Obs) : Out := [Ev.n Notif.complete]
 def isFinished (_ : Obs) (down : Bool) : Bool := down
 /-- `p.p_next(v)` / `p_error` / `p_complete` on the k-th boxed subscriber -/
 def emitTo (k : Nat) (x : Notif) : Out := [Ev.to k x]
+/-- `inner.actual_subscribe(InnerObserver::new(cell))`: inner observable `k` is subscribed NOW (what it then
+    calls on its observer are further, separate calls on the generated functions) -/
+def emitStart (k : Nat) : Out := [Ev.start k]
+/-- a stored closure is run: `<Struct>.<fn>_lazy` says what that does -/
+def emitLazy (k : Nat) : Out := [Ev.lazy k]
 /-- a user callback without result is called (`func()` of finalize); `k` names the callback -/
 def emitCall (k : Nat) : Out := [Ev.call k]
 /-- `sub.is_closed()`: the nested subscription's answer is a parameter. -/
